@@ -366,7 +366,8 @@ class Ctx:
             h = hashlib.sha1(json.dumps(v, sort_keys=True, default=repr).encode()).hexdigest()[:12]
             path = os.path.join(rdir, '%s.json' % h)
             with open(path, 'w') as f:
-                json.dump({'property': self.prop, 'key': v['key'], 'what': v['what'], 'replay': v['replay'], 'broken': self.broken}, f, indent=1, default=repr)
+                json.dump({'property': self.prop, 'key': v['key'], 'what': v['what'], 'replay': v['replay'], 'broken': self.broken,
+                           'reproduce': 'VERIF_SEED=%d bin/check %s --tier %s   (deterministic: the same generated case fails again; `replay` above is the failing input itself)' % (self.seed, self.prop, self.tier)}, f, indent=1, default=repr)
             lines.append('VIOLATION property=%s replay=%s' % (self.prop, os.path.relpath(path, VERIF)))
             print('  violation: %s -- %s' % (v['key'], v['what'][:300]))
             rc = 1
@@ -375,7 +376,7 @@ class Ctx:
             h = hashlib.sha1(json.dumps(self.broken, sort_keys=True, default=repr).encode()).hexdigest()[:12]
             path = os.path.join(rdir, 'broken_%s.json' % h)
             with open(path, 'w') as f:
-                json.dump({'property': self.prop, 'no_longer_checks': self.broken,
+                json.dump({'property': self.prop, 'no_longer_checks': self.broken, 'reproduce': 'VERIF_SEED=%d bin/check %s --tier %s' % (self.seed, self.prop, self.tier),
                            'note': 'a proof obligation / correspondence / translator pattern no longer checks and the search found no concrete failing input'}, f, indent=1, default=repr)
             for b in self.broken[:8]:
                 print('  broken %s: %s -- %s' % (b['kind'], b['name'], b['detail'][:400].replace('\n', ' ')))
